@@ -95,7 +95,9 @@ ASSUMPTIONS = ['matrix entries in [1, 2]: no cancellation, reconstruction is exa
                'UNCOLORED twin already differs from the closed form is not judged (counted)',
                'Driver._compute_totals() (private) is called without arguments only - it is what every optimizer '
                'driver calls each iteration',
-               'copies: None, {} and [] all mean "no subtractions"; Coloring.load may ADD metadata (timestamp, source) '
+               'copies: a copy / reloaded coloring must hold the same plain data as the original (groups, nonzero '
+               'maps, subtraction list in the same order); None, {} and [] all mean "no subtractions"; Coloring.load '
+               'may ADD metadata (timestamp, source) '
                'but must keep what was saved; a problem with the same name and working directory as an earlier one '
                'reads that one\'s coloring files when use_fixed_coloring() is given no file (documented standard '
                'location)']
